@@ -365,8 +365,11 @@ async def step(
             sim.schedule_step(next_step_tiered_time)
             sim.next_self_step = next_step_tiered_time
 
-    if sim.type == 'time-based':
-        assert next_step_time, "A time-based simulator must always return a next step"
+    if sim.type == 'time-based' and next_step_time is None:
+        raise SimulationError(
+            'a time-based simulator must always return a next step, but the step method '
+            f'returned None for simulator "{sim.sid}"'
+        )
 
 
 def rt_check(
